@@ -333,6 +333,14 @@ type fdaScenario struct {
 	// the garbage collector is switched off for the whole run: an object netpoll dropped without closing it (a
 	// net.Listener, an os.File) must not be rescued by its finalizer before the final census
 	noGC bool
+	// the scenario is meant to run in a private network namespace (lib/fdrun.py wraps it in `unshare -n` and sets
+	// VERIF_FDA_NETNS=1); without one it still runs, with less effect
+	netns bool
+	// the scenario depends on several threads really running at the same instant: the runner starts it before the
+	// others, not next to fifteen more
+	quiet bool
+	// outcomes that this scenario provokes on purpose: no "does not normally happen" hint for the model run
+	noExpect []string
 }
 
 func fdaEchoScenario(network string, serverCloses bool, nconn int) func(x *fdaCtx) {
@@ -1023,7 +1031,7 @@ func fdaRlimitManagerScenario(x *fdaCtx) {
 }
 
 func fdaScenarios() []fdaScenario {
-	return []fdaScenario{
+	return append([]fdaScenario{
 		{name: "tcp-echo-client-closes", run: fdaEchoScenario("tcp", false, 1)},
 		{name: "tcp-echo-server-closes", run: fdaEchoScenario("tcp", true, 1)},
 		{name: "unix-echo-client-closes", run: fdaEchoScenario("unix", false, 1)},
@@ -1046,14 +1054,22 @@ func fdaScenarios() []fdaScenario {
 		{name: "rlimit", run: fdaRlimitScenario, noChurn: true},
 		{name: "rlimit-create-listener", run: fdaRlimitListenerScenario, noChurn: true, noGC: true},
 		{name: "rlimit-manager-run", run: fdaRlimitManagerScenario, noChurn: true},
-	}
+	}, fdaMoreScenarios()...)
 }
 
 // VerifFdAuditMain: `list` | `run <scenario> <seed> [nochurn]`
 func VerifFdAuditMain(args []string) int {
 	if len(args) >= 1 && args[0] == "list" {
+		// one scenario per line: name, then flags for the runner (`netns`: wrap in a private network namespace)
 		for _, s := range fdaScenarios() {
-			fmt.Println(s.name)
+			l := s.name
+			if s.netns {
+				l += " netns"
+			}
+			if s.quiet {
+				l += " quiet"
+			}
+			fmt.Println(l)
 		}
 		return 0
 	}
@@ -1087,6 +1103,10 @@ func VerifFdAuditMain(args []string) int {
 	}
 	syscall.Close(dn)
 	SetLoggerOutput(io.Discard)
+	if sc.netns && os.Getenv("VERIF_FDA_NETNS") == "1" && !fdaPrivateNetns() {
+		fmt.Fprintln(os.Stderr, "private network namespace could not be set up")
+		return 4
+	}
 	// warm up the Go runtime's own poller and package net's caches so that they open nothing later
 	if l, err := net.Listen("tcp", "127.0.0.1:0"); err == nil {
 		if c, err := net.Dial("tcp", l.Addr().String()); err == nil {
@@ -1112,8 +1132,16 @@ func VerifFdAuditMain(args []string) int {
 	base := fdaCensus()
 	fdaMark("S %s", sc.name)
 	fdaMark("B %s", fdaInts(base))
-	x.expect("selfConnect", false)
-	x.expect("spuriousENOTAVAIL", false)
+	skip := map[string]bool{}
+	for _, n := range sc.noExpect {
+		skip[n] = true
+	}
+	if !skip["selfConnect"] {
+		x.expect("selfConnect", false)
+	}
+	if !skip["spuriousENOTAVAIL"] {
+		x.expect("spuriousENOTAVAIL", false)
+	}
 	x.expect("setNonblock_ok", true)
 	x.expect("sockopts_ok", true)
 	x.expect("ln_setNonblock_ok", true)
